@@ -323,7 +323,7 @@ func (n *vnode) spec(m modelVals) (map[string]interface{}, bool) {
 		}
 		var l int
 		fmt.Sscan(ln, &l)
-		if l > len(n.Elems) {
+		if l > len(n.Elems) || l < 0 {
 			return nil, false
 		}
 		vs := []string{}
